@@ -194,6 +194,23 @@ def handle : Handler
       let a := levels.foldl (fun (a : List Nat) raw => a.map fun x => (inverse raw).getD x 0) (List.range n)
       let seen := if (← bool? sh) then index.map fun v => labels.getD v (-1) else labels
       some (verdict (decide (SamePartition a seen) && labels.length == n))) "bad-args"
+  | "c05.spec_shuffle", [n, m, ip, ix, dt, bip, kn, kip, kix, index] => some <| Option.getD (do
+      -- the graph handed to the kernel in the first round is the symmetrised (block) adjacency with node `j`
+      -- standing for original node `index[j]` — the convention the un-shuffle of `_post_processing` inverts
+      let c ← csrRat? n m ip ix dt
+      let bip ← bool? bip
+      let kn ← kn.toNat?
+      let k ← csrPattern? (toString kn) (toString kn) kip kix
+      let index ← natList? index
+      let e0 : Nat → Nat → Bool := fun i j => (c.row i).any fun e => e.1 == j && e.2 != 0
+      let e : Nat → Nat → Bool := if bip then
+          fun i j => if i < c.nRow then (if j < c.nRow then false else e0 i (j - c.nRow))
+                     else (if j < c.nRow then e0 j (i - c.nRow) else false)
+        else e0
+      let ke : Nat → Nat → Bool := fun i j => (k.rowIdx i).contains j
+      let ok := (List.range kn).all fun j => (List.range kn).all fun j' =>
+        ke j j' == (e (index.getD j kn) (index.getD j' kn) || e (index.getD j' kn) (index.getD j kn))
+      some (verdict (ok && index.length == kn))) "bad-args"
   | "c05.spec_same", [a, b] => some <| Option.getD (do
       let a ← intList? a
       let b ← intList? b
